@@ -18,7 +18,7 @@ from . import statscommon as S
 EXPLANATION = (
     "Formula, CFG and def-use rules over HvsrCurve's peak finders and the update_peaks_bounded / mean_curve_peak "
     "methods of the four result classes. Decided: (R1) the search range is converted with `is None` tests to "
-    "index bounds 0 / len(frequency) / argmin|f - limit|, frequency and amplitude are sliced with the same "
+    "index bounds 0 / len(frequency) / argmin|f - limit| (+ 1 for the upper bound: the half-open slice keeps the nearest sample), frequency and amplitude are sliced with the same "
     "bounds, candidates come from find_peaks on the amplitude, the reported pair indexes both arrays with the "
     "same candidate chosen by argmax of the candidate amplitudes, and (None, None) is returned exactly when there "
     "are no candidates; (R2) after the cache test the per-window loop covers all rows without break/continue and "
@@ -31,7 +31,7 @@ EXPLANATION = (
     "rounding of the range ends.")
 
 RULES = {
-    "C08.R1": "range -> index bounds by `is None`/argmin; same slice for both arrays; argmax candidate indexes both arrays; None iff no candidates",
+    "C08.R1": "range -> index bounds by `is None`/argmin (upper bound argmin + 1); same slice for both arrays; argmax candidate indexes both arrays; None iff no candidates",
     "C08.R2": "every window re-evaluated: each loop iteration assigns peak frequency, amplitude and both masks exactly once",
     "C08.R3": "cache test compares both arguments; stored range == arguments; mean-curve peak uses the stored range",
     "C08.R4": "azimuthal fan-out forwards both arguments to every member",
